@@ -733,6 +733,50 @@ func c13ReceiveBounds(c *Ctx) {
 	}
 }
 
+// C05.9: the unpacker's own indexing and slicing of a received packet (header-protection sample, packet-number bytes,
+// AEAD input) is in bounds: the "packet too small" guards dominate every slice (BND over the packet_unpacker.go
+// functions; their callees are the wire parsers of C08 and the AEADs).
+var bndUnpackerExceptions = map[string]string{
+	"(*quic.packetUnpacker).unpackLongHeaderPacket#slice[v:]#1":   "extHdrLen is ExtendedHeader.ParsedLen() of a header that unpackLongHeader parsed out of this very `data` (parsed length <= len(data)); a cross-call fact the engine does not track",
+	"(*quic.packetUnpacker).unpackLongHeaderPacket#slice[v:v]#1":  "same extHdrLen (empty destination slice data[extHdrLen:extHdrLen])",
+	"(*quic.packetUnpacker).unpackShortHeaderPacket#slice[v:]#1":  "l is the header length wire.ParseShortHeader returned for this very `data` (1 + connIDLen + pnLen <= len(data), checked there and by the 20-byte guard of unpackShortHeader)",
+	"(*quic.packetUnpacker).unpackShortHeaderPacket#slice[v:v]#1": "same l (empty destination slice data[l:l])",
+	"(*quic.packetUnpacker).unpackShortHeader#slice[v:]#1":        "origPNBytes has length 4 (make([]byte, 4)) and pnLen is a PacketNumberLen (1..4) decoded from two header bits",
+	"quic.unpackLongHeader#slice[v:]#1":                           "origPNBytes has length 4 and PacketNumberLen is 1..4",
+	"(*quic.packetUnpacker).unpackShortHeader#slice[v:v]#4":       "data[hdrLen+pnLen : hdrLen+4]: pnLen is a PacketNumberLen (1..4), so low <= high; high is within the 20-byte guard",
+	"quic.unpackLongHeader#slice[v:v]#4":                          "data[hdrLen+pnLen : hdrLen+4]: PacketNumberLen is 1..4, so low <= high; high is within the 20-byte guard",
+}
+
+func c05UnpackerBounds(c *Ctx) {
+	const R = "C05.9"
+	var fns []*ssa.Function
+	for _, r := range [][3]string{{"", "packetUnpacker", "unpackLongHeaderPacket"}, {"", "packetUnpacker", "unpackShortHeaderPacket"}, {"", "packetUnpacker", "unpackShortHeader"}, {"", "packetUnpacker", "unpackLongHeader"},
+		{"", "", "unpackLongHeader"}, {"", "packetUnpacker", "UnpackLongHeader"}, {"", "packetUnpacker", "UnpackShortHeader"}} {
+		f, err := c.P.Func1(r[0], r[1], r[2])
+		if err != nil {
+			c.Bad(R, "root:"+r[1]+"."+r[2], "-", "unpacker function not found")
+			continue
+		}
+		c.FuncsSet[funcName(f)] = true
+		fns = append(fns, withAnon(f)...)
+	}
+	unp, err := compilerUnproven(c.P.RepoDir, c.P.GOARCH, []string{"."})
+	if err != nil {
+		c.Err(R, "compiler bounds-check listing (root package)", err)
+		return
+	}
+	c.Floor(R, "bounds checks the compiler could not remove in the root package (listing alive)", len(unp), 50)
+	sites := c.P.bndSites(fns, unp, bndUnpackerExceptions)
+	c.Floor(R, "index/slice sites in the unpacker", len(sites), 12)
+	for _, st := range sites {
+		key := st.Expr
+		if i := strings.Index(key, " ("); i > 0 {
+			key = key[:i]
+		}
+		c.Check(st.OK, R, "bnd:"+key, c.P.InstrPos(st.Instr), fmt.Sprintf("%s — %s", st.Expr, st.Why))
+	}
+}
+
 // C09.14: the scrambler's ClientHello parser (sni.go) never indexes or slices out of bounds: every index/slice site
 // reachable from findSNIAndECH is compiler-proven or follows from a length fact (BND engine).
 func c09SNIParserBounds(c *Ctx) {
